@@ -72,6 +72,11 @@ pub const fn cap_vars(w: usize) -> usize {
     n
 }
 
+/// native only: number of satisfiable answers given by all oracles of the process (used to select harnesses in which
+/// the backend never returns a model)
+#[cfg(not(kani))]
+pub static SAT_ANSWERS: std::sync::atomic::AtomicU32 = std::sync::atomic::AtomicU32::new(0);
+
 #[derive(Default)]
 pub struct Shared {
     /// number of solve calls over all instances
@@ -191,6 +196,8 @@ impl<const WORDS: usize> SatSolver for Oracle<WORDS> {
             return SolvingResult::Unsatisfiable;
         }
         sh.sat_answers.set(sh.sat_answers.get() + 1);
+        #[cfg(not(kani))]
+        SAT_ANSWERS.fetch_add(1, std::sync::atomic::Ordering::Relaxed);
         // the table is a cylinder over the variables above `nv`: a satisfying point below 2^nv exists
         let chosen = if sh.fork_models.get() {
             // path mode: one fork per satisfying assignment, the rest of the path is concrete
